@@ -404,11 +404,111 @@ func (r *vwRun) snapshot(final bool) map[string]interface{} {
 		}
 		st = append(st, found)
 	}
+	dup, pooled := r.cmdCensus()
+	ev["dupcmd"] = dup
+	ev["pooled"] = pooled
 	ev["clients"] = cl
 	ev["sessions"] = se
 	ev["streams"] = st
 	ev["final"] = final
 	return ev
+}
+
+// cmdCensus: LockCommand objects are recycled through per-connection free stacks and a global pool.  Every live
+// Lock record (holder with depth > 0, waiter that has not timed out) must own its command object alone, and no
+// such object may sit in a free pool.  Returns (objects referenced by more than one live record, objects of
+// live records found in a pool).  Callers are quiescent.
+func (r *vwRun) cmdCensus() (int, int) {
+	unlock := r.lockAll()
+	live := map[*protocol.LockCommand]int{}
+	for _, db := range r.w.slock.dbs {
+		if db == nil {
+			continue
+		}
+		seen := map[*LockManager]bool{}
+		add := func(m *LockManager) {
+			if m == nil || seen[m] || m.refCount == 0xffffffff {
+				return
+			}
+			seen[m] = true
+			if m.currentLock != nil && m.currentLock.locked > 0 && m.currentLock.command != nil {
+				live[m.currentLock.command]++
+			}
+			if m.locks != nil {
+				for _, node := range m.locks.IterNodes() {
+					for _, l := range node {
+						if l != nil && l.locked > 0 && l.command != nil {
+							live[l.command]++
+						}
+					}
+				}
+			}
+			if m.waitLocks != nil {
+				for _, node := range m.waitLocks.IterNodes() {
+					for _, l := range node {
+						if l != nil && !l.timeouted && l.ackCount == 0xff && l.command != nil {
+							live[l.command]++
+						}
+					}
+				}
+			}
+		}
+		for i := range db.fastLocks {
+			add(db.fastLocks[i].manager)
+		}
+		db.mGlock.RLock()
+		for _, m := range db.locks {
+			add(m)
+		}
+		db.mGlock.RUnlock()
+	}
+	unlock()
+	dup := 0
+	for _, n := range live {
+		if n > 1 {
+			dup++
+		}
+	}
+	pooled := 0
+	inPool := func(q *LockCommandQueue) {
+		if q == nil {
+			return
+		}
+		for i := range q.IterNodes() {
+			for _, c := range q.IterNodeQueues(int32(i)) {
+				if c != nil && live[c] > 0 {
+					pooled++
+				}
+			}
+		}
+	}
+	s := r.w.slock
+	s.freeLockCommandLock.Lock()
+	inPool(s.freeLockCommandQueue)
+	s.freeLockCommandLock.Unlock()
+	for _, id := range r.order {
+		c := r.conns[id]
+		if c.closed {
+			continue
+		}
+		switch p := c.proto.(type) {
+		case *BinaryServerProtocol:
+			for _, x := range p.freeCommands[:p.freeCommandIndex] {
+				if x != nil && live[x] > 0 {
+					pooled++
+				}
+			}
+			inPool(p.lockedFreeCommands)
+		case *TextServerProtocol:
+			for _, x := range p.freeCommands[:p.freeCommandIndex] {
+				if x != nil && live[x] > 0 {
+					pooled++
+				}
+			}
+			inPool(p.lockedFreeCommands)
+		}
+	}
+	return dup, pooled
 }
 
 func (r *vwRun) hasWaiter(key, lid int64) bool {
